@@ -31,6 +31,12 @@ CHECKS.update({
    text="Breadth-first search over all tick-by-tick input histories (per-link alphabet of connectivity x bitrate on/just under each threshold x RTT class, links joining and leaving) of the real classifier for 1..4 links; the canonical key is the filter's private hysteresis memory plus the monitor's memory, all saturating, so the search runs until the frontier is empty (all reachable states). The monitor keeps its own verdict history and checks the two-tick delay rule, the 15-verdict/3-tick probation rule, the enter/leave thresholds and the disconnected/under-floor rule on every transition.",
    note="Trusted: the monitor, the canonicalisation argument (delay streak saturated at 2 because the code only compares it with >= 2), the choice of RTT classes that make the delay signal unambiguous. Tier arithmetic itself is left to the repository's unit tests.",
    design="3/C17"),
+ "C16": dict(
+   engine="seqx",
+   technique="exhaustive history exploration of the real per-link CC controller (tick_all/tick) over a tick-input alphabet from a library of scripted start states, relational oracle on consecutive snapshots",
+   text="All tick-input sequences to depth 2-3 over a 361-symbol alphabet (RTT x observed bitrate relative to the current target x byte/NAK deltas incl. counter resets x spacing, link vanishing), to depth 4-5 over 24 symbols, to depth 6-8 over a loss alphabet, and every history that uses at most two (depth 13-16) or three (depth 9) distinct symbols out of 40, each from up to eight start states reached by scripted real histories (seeded, at the ceiling, at the floor via drain re-entries, at the floor via back-off, loss latch engaged, 'not my loss' verdict held). The oracle relates every snapshot to its predecessor and the tick's inputs (bounds, the only two ways the cap may fall, 6%/2x growth, seed bound, latch timing).",
+   note="Trusted: the relational monitor (integer arithmetic from the statement, +-1 rounding slack), the scripted start histories (their reachability is re-checked and reported on every run). Floating point: exact for the enumerated inputs only.",
+   design="3/C16"),
 })
 
 NOT_YET = {
